@@ -10,4 +10,5 @@ def run(ck):
     status.r19_4_depths(ck, P, accepted)
     status.r19_6_op_reduction(ck, P)
     status.r_byte_budget(ck, P, 'C19-R7', tail=True)
+    status.r_fill_word(ck, P, 'C19-R8')
     geometry.r2_raw_writers_bounded(ck, P, rows=False)
